@@ -49,7 +49,10 @@ Inductive json :=
 | JArr (l : list json) | JObj (l : list (string * json)).
 
 Inductive nk := I8 | I16 | I32 | U8 | U16 | U32.      (* encoded as JSON numbers *)
-Inductive fmode := FReq | FOptional | FOmit.          (* serix tags "optional" / "omitempty" *)
+Inductive fmode := FReq | FOptional | FOmit           (* serix tags "optional" / "omitempty" *)
+                 | FInline.                            (* "inlined" field, or embedded struct (then the schema of the
+                                                          field carries no code: its type settings are not consulted):
+                                                          the entries live in the parent object; the field key is unused *)
 
 Inductive schema :=
 | SBool | SNum (k : nk) | SI64 | SU64                 (* int64/uint64: decimal strings *)
@@ -60,7 +63,13 @@ Inductive schema :=
                                                       (* struct or *struct; registered object code; (key, mode, type) *)
 | SSlice (e : schema) | SArr (n : nat) (e : schema)   (* []T, [n]T for non-byte T *)
 | SMap (k v : schema)
-| SIface (alts : list (N * schema)).                  (* interface with registered (code, type) alternatives *)
+| SIface (alts : list (N * schema))                   (* interface with registered (code, type) alternatives *)
+| SByteArrO (ptr : bool) (n : nat) (code : option N) (key : string).
+                                                      (* [n]byte whose registered type settings carry an object code
+                                                         (written as the object {"type": code, key: hex}) and/or which
+                                                         sits behind a pointer; [key] is the effective inner key: the
+                                                         explicit tag key of the struct field holding a by-value array,
+                                                         else the registered field key, else "data" *)
 
 Inductive value :=
 | VBool (b : bool) | VInt (z : Z) | VStr (s : string)
@@ -206,10 +215,11 @@ Fixpoint jlookup (k : string) (o : list (string * json)) : option json :=
 Definition is_nil (v : value) : bool := match v with VNil => true | _ => false end.
 Definition is_opt (m : fmode) : bool := match m with FOptional => true | _ => false end.
 Definition is_omit (m : fmode) : bool := match m with FOmit => true | _ => false end.
+Definition is_inline (m : fmode) : bool := match m with FInline => true | _ => false end.
 
 (* parseStructFields: "optional" only on pointers and interfaces *)
 Definition nilable (s : schema) : bool :=
-  match s with SStruct true _ _ | SIface _ | SU256 => true | _ => false end.
+  match s with SStruct true _ _ | SIface _ | SU256 | SByteArrO true _ _ _ => true | _ => false end.
 Definition fields_ok (fs : list (string * fmode * schema)) : bool :=
   forallb (fun f => match f with (_, m, s) => negb (is_opt m) || nilable s end) fs.
 
@@ -271,6 +281,8 @@ Fixpoint zero_of (s : schema) : value :=
   | SSlice _ => VList []
   | SArr n e => VList (repeat (zero_of e) n)
   | SMap _ _ => VMap []
+  | SByteArrO true _ _ _ => VNil
+  | SByteArrO false n _ _ => VStr (fit n EmptyString)
   end.
 
 Section FieldsZero.
@@ -300,6 +312,8 @@ Fixpoint is_empty (s : schema) (v : value) {struct s} : bool :=
   | SSlice _ => match v with VList [] => true | _ => false end
   | SArr _ e => match v with VList vs => forallb (is_empty e) vs | _ => false end
   | SMap _ _ => match v with VMap [] => true | _ => false end
+  | SByteArrO true _ _ _ => is_nil v
+  | SByteArrO false n _ _ => match v with VStr x => String.eqb x (fit n EmptyString) | _ => false end
   end.
 
 (* field types on which the model value determines emptiness exactly *)
@@ -315,7 +329,11 @@ Fixpoint enc_fields (fs : list (string * fmode * schema)) (vs : list value)
   | [], [] => Ok []
   | (k, m, s) :: fr, v :: vr =>
       if (is_omit m && is_empty s v) || (is_opt m && is_nil v) then enc_fields fr vr   (* omitEmpty first, then optional *)
-      else let* j := enc s v in let* r := enc_fields fr vr in Ok ((k, j) :: r)
+      else let* j := enc s v in
+           let* r := enc_fields fr vr in
+           if is_inline m then
+             match j with JObj kvs => Ok (kvs ++ r) | _ => Err EUnsupported end   (* "failed to cast inlined struct field" *)
+           else Ok ((k, j) :: r)
   | _, _ => Err EType
   end.
 End EncFields.
@@ -352,6 +370,7 @@ Fixpoint dec_fields (fs : list (string * fmode * schema)) : res (list value) :=
   match fs with
   | [] => Ok []
   | (k, m, s) :: fr =>
+      if is_inline m then let* v := dec s (JObj o) in let* r := dec_fields fr in Ok (v :: r) else
       match jlookup k o with
       | None => if is_opt m then let* r := dec_fields fr in Ok (VNil :: r)
                 else if is_omit m then let* r := dec_fields fr in Ok (zero_of s :: r)   (* field left untouched *)
@@ -435,6 +454,16 @@ Fixpoint jencode (s : schema) (v : value) {struct s} : res json :=
       | VIface c x => match alts with [] => Err EUnsupported | _ => find_alt (fun a => jencode a x) c alts end
       | _ => Err EType
       end
+  | SByteArrO ptr n code key =>                        (* mapEncodeSlice: `if ts.ObjectType() != nil` *)
+      let body (x : value) :=
+        match x with
+        | VStr b => Ok (match code with
+                        | Some c => JObj [(key_type, JNum (Z.of_N c)); (key, JStr (encode_hex b))]
+                        | None => JStr (encode_hex b)
+                        end)
+        | _ => Err EType
+        end in
+      if ptr then match v with VNil => Err ENil | VPtr x => body x | _ => Err EType end else body v
   end.
 
 (* ---------- mapDecode ---------- *)
@@ -493,6 +522,27 @@ Fixpoint jdecode (fx : bool) (s : schema) (j : json) {struct s} : res value :=
           | _ => Err EShape
           end
       end
+  | SByteArrO ptr n code key =>
+      (* after b4a46ea / 74faee1 the decoder mirrors the encoder: bare hex string without an object type, object form
+         with one (behind a pointer: only that form; by value also the bare string). The type code is not checked.
+         Before ([fx = false]): *[n]byte needed registered type settings and the object form; a by-value array had
+         to be a string (unchecked assertion). *)
+      let hex (x : string) := let* b := decode_hex x in Ok (VStr (fit n b)) in
+      let fromobj (o : list (string * json)) :=
+        match jlookup key o with Some (JStr x) => hex x | _ => Err EShape end in
+      if ptr then
+        let* r := match code, j with
+                  | None, JStr x => if fx then hex x else Err EUnsupported
+                  | Some _, JObj o => fromobj o
+                  | None, JObj o => if fx then Err EShape else fromobj o
+                  | _, _ => Err EShape
+                  end in Ok (VPtr r)
+      else
+        match j with
+        | JStr x => hex x
+        | JObj o => match code with Some _ => if fx then fromobj o else Panic | None => shape_err fx end
+        | _ => shape_err fx
+        end
   end.
 
 (* ---------- JSONEncode / JSONDecode (top level) ---------- *)
@@ -533,20 +583,37 @@ Fixpoint code_nodup (l : list N) : bool :=
   match l with [] => true | c :: r => negb (existsb (N.eqb c) r) && code_nodup r end.
 Definition fkey (f : string * fmode * schema) : string := fst (fst f).
 
-(* Schemas on which the model is the code (what the harness generates): distinct field keys, none equal to
-   "type" in a struct with an object code, codes are uint32, map keys encode to strings, []uint8 is SBytes,
+(* the keys a struct schema writes into / reads from its object: "type" when it has a code, its field keys, and
+   those of its inlined / embedded struct fields *)
+Definition code_keys (code : option N) : list string := match code with Some _ => [key_type] | None => [] end.
+Fixpoint skeys (s : schema) : list string :=
+  match s with
+  | SStruct _ code fs =>
+      code_keys code ++
+      (fix go (l : list (string * fmode * schema)) : list string :=
+         match l with
+         | [] => []
+         | (k, m, x) :: r => (if is_inline m then skeys x else [k]) ++ go r
+         end) fs
+  | _ => []
+  end.
+Definition fkeys (f : string * fmode * schema) : list string :=
+  match f with (k, m, x) => if is_inline m then skeys x else [k] end.
+Definition flat_keys (fs : list (string * fmode * schema)) : list string := List.concat (map fkeys fs).
+Definition is_struct (s : schema) : bool := match s with SStruct _ _ _ => true | _ => false end.
+
+(* Schemas on which the model is the code (what the harness generates): distinct field keys (those of inlined and
+   embedded structs included), none equal to "type" in a struct with an object code, inlined fields are structs, codes are uint32, map keys encode to strings, []uint8 is SBytes,
    interface alternatives are value structs registered under their own distinct codes. *)
 Fixpoint wf_schema (s : schema) : bool :=
   match s with
   | SStruct _ code fs =>
       fields_ok fs
       && forallb (fun f => match f with (_, m, x) => negb (is_omit m) || omittable x end) fs
+      && forallb (fun f => match f with (_, m, x) => negb (is_inline m) || is_struct x end) fs
       && forallb (fun f => match f with (_, _, x) => wf_schema x end) fs
-      && str_nodup (map fkey fs)
-      && match code with
-         | Some c => (c <? 4294967296)%N && negb (existsb (String.eqb key_type) (map fkey fs))
-         | None => true
-         end
+      && str_nodup (skeys s)
+      && match code with Some c => (c <? 4294967296)%N | None => true end
   | SSlice e | SArr _ e => negb (is_u8 e) && wf_schema e
   | SMap k v => key_schema k && wf_schema v
   | SIface alts =>
@@ -555,6 +622,8 @@ Fixpoint wf_schema (s : schema) : bool :=
                         | _ => false
                         end) alts
       && code_nodup (map fst alts)
+  | SByteArrO _ _ code key =>
+      match code with Some c => (c <? 4294967296)%N && negb (String.eqb key key_type) | None => true end
   | _ => true
   end.
 
@@ -607,6 +676,9 @@ Fixpoint has_type (s : schema) (v : value) {struct s} : bool :=
       | _ => false
       end
   | SIface alts => match v with VIface c x => alt_has_type has_type c x alts | _ => false end
+  | SByteArrO ptr n _ _ =>
+      let body (x : value) := match x with VStr b => Nat.eqb (String.length b) n | _ => false end in
+      if ptr then match v with VPtr x => body x | _ => false end else body v
   end.
 
 (* ---------- decidable equalities for the correspondence ---------- *)
